@@ -64,6 +64,58 @@ def mantissa_bits(bits):
     return frac.bit_length()
 
 
+F64_MACHINE_PARAMETERS = {
+    0x3CB0000000000000: "f64::EPSILON", 0x3CA0000000000000: "f64::EPSILON/2", 0x0010000000000000: "f64::MIN_POSITIVE",
+    0x7FEFFFFFFFFFFFFF: "f64::MAX", 0xFFEFFFFFFFFFFFFF: "f64::MIN", 0x4340000000000000: "2^53", 0x4330000000000000: "2^52",
+    0x0000000000000001: "smallest subnormal",
+}
+
+
+def f64_computation(v, operand, depth, seen):
+    """Reasons why the f64 operand is the result of a computation done in f64 (beyond ring operations on constants)."""
+    if operand["k"] != "const" and operand["k"] not in ("copy", "move"):
+        return []
+    if operand["k"] == "const" or depth > 12:
+        return []
+    pl = operand["place"]
+    if pl["p"]:
+        return []            # a field / element of stored data: a constant of the table
+    l = pl["l"]
+    if l in seen or v.is_arg(l):
+        return []
+    seen.add(l)
+    d = v.single_def(l)
+    if d is None:
+        return []
+    if d[0] == "call":
+        t = d[2]
+        c = t.get("callee") or {}
+        p = c.get("path") or ""
+        nm = c.get("name")
+        if ("f64" in p and p.startswith(("core::f64", "std::f64"))) or (c.get("self_ty") == "f64" and not c.get("trait")):
+            if nm not in ("from", "into", "clone", "abs", "neg", "to_owned"):
+                return ["f64::%s at %s" % (nm, pat.where(t))]
+        if nm in ("clone", "deref", "borrow", "unwrap", "into", "from") and t["args"]:
+            return f64_computation(v, t["args"][0], depth + 1, seen)
+        return []
+    rv = d[3]
+    k = rv["k"]
+    if k == "use":
+        return f64_computation(v, rv["op"], depth + 1, seen)
+    if k == "unop":
+        return f64_computation(v, rv["a"], depth + 1, seen)
+    if k == "cast":
+        return []
+    if k == "binop":
+        op = rv["op"]
+        if op in ("Div", "Rem"):
+            if rv["b"]["k"] != "const":
+                return ["f64 division by non-literal data"] + f64_computation(v, rv["a"], depth + 1, seen)
+            return f64_computation(v, rv["a"], depth + 1, seen)
+        return f64_computation(v, rv["a"], depth + 1, seen) + f64_computation(v, rv["b"], depth + 1, seen)
+    return []
+
+
 def run(ctx):
     R = ctx.roles
     f = ctx.facts
@@ -154,6 +206,10 @@ def run(ctx):
                 bits = a.get("bits")
                 mb = mantissa_bits(bits) if bits is not None else 99
                 val = struct.unpack("<d", struct.pack("<Q", int(bits)))[0] if bits is not None else None
+                mp = F64_MACHINE_PARAMETERS.get(int(bits)) if bits is not None else None
+                ctx.ob("C19-c", "literal %r passed to from_f64 is not a machine parameter of f64" % (val,), mp is None, body.path, "from_f64-machine-parameter",
+                       where=pat.where(t), detail="%s is handed to the user's scalar type: generic code that is tuned to the rounding level / range of f64 "
+                                                  "caps the precision a wider type can deliver" % mp)
                 ctx.ob("C19-c", "literal %r passed to from_f64 has %d significant bits" % (val, mb), mb <= 24, body.path, "from_f64-literal",
                        where=pat.where(t), detail="the f64 literal %r (%d significant bits) is converted into the user's scalar type: a wider type only "
                                                   "gets its f64 approximation (use the trait's own constant / an exact dyadic literal)" % (val, mb))
@@ -167,6 +223,28 @@ def run(ctx):
                    "from_f64-arg-provenance", where=pat.where(t),
                    detail="from_f64 argument derives from %s: a round trip through f64" % [fmt_source(s) for s in bad])
     ctx.ob("C19-b", "from_f64 sites analysed (>= 10 expected, found %d)" % n_from, n_from >= 10, "*", "from_f64-floor")
+    # d: the f64 value that is widened may be COMBINED from table constants by ring operations only; a quotient by table data, a
+    # reciprocal or an f64 library function is a computation that belongs in the user's type (it is rounded to f64 before widening)
+    ctx.rule("C19-d", "an f64 handed to from_f64 in generic code is built from constants by +, −, ×, ÷ literal, int→f64 casts only: no division by "
+                      "non-literal data, no f64 library function (sqrt, powf, recip, ln, …) on the way")
+    n_d = 0
+    for key, body in f.mir.items():
+        if not is_generic_over_float(f, body) or body is q:
+            continue
+        sites = [(bi, t) for bi, t in body.calls() if callee_is(t, trait="MomTropFloat", name="from_f64")]
+        if not sites:
+            continue
+        v = Vals(body)
+        for bi, t in sites:
+            a = t["args"][1]
+            if a["k"] == "const":
+                continue
+            n_d += 1
+            bad = f64_computation(v, a, 0, set())
+            ctx.ob("C19-d", "from_f64 argument in %s is a ring combination of constants" % norm_path(body.path), not bad, body.path,
+                   "from_f64-arg-computed-in-f64", where=pat.where(t),
+                   detail="the widened value is computed in f64 first (%s): the user's type only receives the f64-rounded result" % "; ".join(bad))
+    ctx.ob("C19-d", "non-literal from_f64 arguments examined (>= 5 expected, found %d)" % n_d, n_d >= 5, "*", "from_f64-computed-floor")
     if ctx.cfg == "default":
         from ..fixtures import detectors_alive
         ctx.rule("C19-z", "positive example: the to_f64 who-may-call detector fires on fixtures/")
